@@ -343,7 +343,11 @@ func main() {
 			tr.Emit(vh.Ev{"ev": "clean", "rid": rid})
 		case "ds.hijack":
 			// the answer of the real security filter of a dedicated case is its (only observable) invocation
-			if st := state(); st != nil && st.realSlot > 0 && len(e.KV) > 1 && int(u32(e.KV[1])) == st.realCode {
+			if len(e.KV) > 1 && int(u32(e.KV[1])) == asyncCode {
+				// TerminateStream called by the driver through a filter's handler took effect (emitted inside the call,
+				// before the worker is woken: ordered before everything the termination causes)
+				tr.Emit(vh.Ev{"ev": "aterm", "ok": true})
+			} else if st := state(); st != nil && st.realSlot > 0 && len(e.KV) > 1 && int(u32(e.KV[1])) == st.realCode {
 				tr.Emit(vh.Ev{"ev": "call", "kind": "recv", "slot": st.realSlot, "ph": st.chain[st.realSlot-1], "n": 1, "v": "hs", "ok": false})
 			} else {
 				tr.Emit(vh.Ev{"ev": "note", "what": e.Name, "rid": rid, "a": fmt.Sprint(e.KV[1:]...)})
@@ -432,8 +436,9 @@ func main() {
 				h := st.handler
 				st.mu.Unlock()
 				if arrived && h != nil {
-					ok := h.TerminateStream(asyncCode)
-					tr.Emit(vh.Ev{"ev": "aterm", "ok": ok})
+					if !h.TerminateStream(asyncCode) { // success is recorded through the ds.hijack hook event
+						tr.Emit(vh.Ev{"ev": "aterm", "ok": false})
+					}
 				} else {
 					tr.Emit(vh.Ev{"ev": "note", "what": "aterm-not-possible", "arrived": arrived})
 				}
@@ -468,9 +473,10 @@ func main() {
 				st.mu.Lock()
 				h := st.handler
 				st.mu.Unlock()
-				if h != nil {
-					ok := h.TerminateStream(asyncCode)
-					tr.Emit(vh.Ev{"ev": "aterm", "ok": ok})
+				if h != nil && ended {
+					if !h.TerminateStream(asyncCode) { // success is recorded through the ds.hijack hook event
+						tr.Emit(vh.Ev{"ev": "aterm", "ok": false})
+					}
 					if o.Kind == "response" && o.Extra == 0 {
 						o2 := cl.Recv(15*time.Millisecond, 0)
 						if o2.Kind == "response" {
